@@ -411,6 +411,13 @@ func propTable() map[string]*PropSpec {
 				q = append(q, c)
 			}
 		}
+		// symbolic COMMITs whose (validly signed) header carries 4 extra trailing bytes
+		tc := mk(1, 1, 2)
+		tc.Name += "/trailing=4"
+		tc.Params = map[string]int{"me": 1, "honest": 1, "sym": 2, "trailing": 4}
+		tc.RequireReach = nil // since the fix such COMMITs are not counted, so this configuration does not commit
+		q = append(q, tc)
+		th = append(th, tc)
 		// a committee with a zero-weight member whose genuine COMMIT ends up in the certificate
 		zw := mk(1, 3, 1)
 		zw.Name += "/weights=5"
@@ -603,7 +610,14 @@ func propTable() map[string]*PropSpec {
 			c.RequireReach = []string{"C11.P.future_view"}
 			return c
 		}
-		q := []RunConfig{mkV(2, 1), mkV(3, 2), mkN(1, -1), mkN(1, 2), mkP(2), mkP(1), mkX(0, 3), mkX(3, 0), mkX(0, 2)}
+		// the adversarial PREPAREs carry 4 extra trailing bytes in their (validly signed) header
+		tv := mkV(2, 1)
+		tv.Name += "/trailing=4"
+		tv.Params = map[string]int{"me": 2, "sym": 1, "trailing": 4}
+		tn := mkN(1, 2)
+		tn.Name += "/trailing=4"
+		tn.Params = map[string]int{"sym": 1, "prepares": 2, "trailing": 4}
+		q := []RunConfig{tv, tn, mkV(2, 1), mkV(3, 2), mkN(1, -1), mkN(1, 2), mkP(2), mkP(1), mkX(0, 3), mkX(3, 0), mkX(0, 2)}
 		th := append([]RunConfig{}, q...)
 		th = append(th, mkV(3, 1), mkV(2, 2), mkN(0, -1), mkN(2, -1), mkN(1, 0), mkN(1, 3), mkN(2, 2), mkP(3), mkX(2, 0), mkX(2, 3), mkX(3, 2))
 		for _, me := range []int{0, 1, 2} {
